@@ -531,17 +531,80 @@ impl Sweep for StoreLimit {
     }
 }
 
+/// Functions applied to unstored intermediate values longer than 255
+/// characters (only a *stored* string is limited): every function that takes a
+/// string, over concatenations of 256..765 characters.
+struct LongIntermediates;
+
+impl Sweep for LongIntermediates {
+    fn name(&self) -> String {
+        "functions-of-intermediates-longer-than-255".into()
+    }
+    fn shards(&self) -> usize {
+        1
+    }
+    fn run_shard(&self, _shard: usize, ctx: &mut Ctx) {
+        use crate::gen::{bin, int, strlit, Expr, PItem, Prog, Stmt};
+        use crate::refmodel::value::BinOp;
+        let call = |n: &str, a: Vec<Expr>| Expr::Call(n.into(), a);
+        let rep = |n: i16, c: &str| call("STRING$", vec![int(n), strlit(c)]);
+        let longs: Vec<Expr> = vec![
+            bin(BinOp::Add, rep(200, "a"), rep(200, "b")),
+            bin(BinOp::Add, rep(255, "é"), strlit("z")),
+            bin(BinOp::Add, bin(BinOp::Add, rep(255, "a"), rep(255, "b")), rep(255, "c")),
+            bin(BinOp::Add, strlit("q"), rep(255, "日")),
+        ];
+        let ns = [1i16, 2, 100, 201, 255, 256];
+        for x in &longs {
+            let mut es: Vec<Expr> = vec![call("LEN", vec![x.clone()]), call("ASC", vec![x.clone()]), call("INSTR", vec![x.clone(), strlit("b")]), call("INSTR", vec![x.clone(), strlit("z")])];
+            for &n in &ns {
+                es.push(call("LEN", vec![call("MID$", vec![x.clone(), int(n)])]));
+                es.push(call("ASC", vec![call("MID$", vec![x.clone(), int(n)])]));
+                es.push(call("LEN", vec![call("LEFT$", vec![x.clone(), int(n)])]));
+                es.push(call("LEN", vec![call("RIGHT$", vec![x.clone(), int(n)])]));
+                es.push(call("ASC", vec![call("RIGHT$", vec![x.clone(), int(n)])]));
+                es.push(call("INSTR", vec![int(n), x.clone(), strlit("b")]));
+                for &m in &[1i16, 255] {
+                    es.push(call("LEN", vec![call("MID$", vec![x.clone(), int(n), int(m)])]));
+                }
+                // a long tail cut back to something storable
+                es.push(call("LEN", vec![call("RIGHT$", vec![call("MID$", vec![x.clone(), int(n)]), int(20)])]));
+            }
+            es.push(bin(BinOp::Lt, x.clone(), bin(BinOp::Add, x.clone(), strlit("a"))));
+            es.push(bin(BinOp::Eq, x.clone(), x.clone()));
+            for e in es {
+                let direct = vec![vec![Stmt::Print(vec![PItem::E(e)])]];
+                let desc = super::both::describe(&Prog::default(), &direct);
+                if !ctx.begin(&desc) {
+                    continue;
+                }
+                match super::both::run_both(&Prog::default(), &direct, &[], 500) {
+                    super::both::Both::Skip(w) => ctx.skip(&w),
+                    super::both::Both::Panic(p) => ctx.violation("long-intermediate/panic", p),
+                    super::both::Both::Done { exp, got } => {
+                        ctx.nontrivial(hash64(&exp));
+                        if exp != got {
+                            ctx.violation("long-intermediate/wrong-result", format!("{} : expected {:?}, got {:?}", desc, exp, got));
+                        }
+                    }
+                }
+            }
+        }
+        ctx.sample();
+    }
+}
+
 impl Check for C07 {
     fn id(&self) -> &'static str {
         "C07"
     }
     fn sweeps(&self, tier: Tier) -> Vec<Box<dyn Sweep>> {
-        vec![Box::new(Universe { extra_strings: true, max_len: tier.pick(3, 5) }), Box::new(StoreLimit)]
+        vec![Box::new(Universe { extra_strings: true, max_len: tier.pick(3, 5) }), Box::new(StoreLimit), Box::new(LongIntermediates)]
     }
     fn meta(&self, tier: Tier) -> Meta {
         Meta {
             bound: format!(
-                "strings {{\"\", a, ab, abc, é, aé, éa, 日本, aXbXc, abcabc, 255 x a, 255 x é}}{}; positions / lengths {{-1, 0, 1, 2, 3, len-1, len, len+1, 255, 256, 32767, 1.5, -0.5, 40000}}; patterns {{\"\", a, b, c, é, bc, zz, X, 本, ab, ca, the string itself}}; codes {{-1, 0, 10, 65, 233, 55295, 55296, 57343, 57344, 1114111, 1114112, 65.5}}; 40 VAL inputs; every function (LEN LEFT$ RIGHT$ MID$ INSTR ASC CHR$ STRING$ SPC STR$ VAL HEX$ OCT$), MID$ assignment with 6 replacement strings, concatenation and the six comparisons over all pairs - all tuples, through the public entry points and through the interpreter (string results stored to a variable); the store limit for 3 targets (scalar, array element, element of a DIMmed 2-D array) x 9 previous contents (unset, empty, 1..255 characters of 1, 2 and 3 bytes) x 14 new lengths 0..700 x 3 characters x 3 tails",
+                "strings {{\"\", a, ab, abc, é, aé, éa, 日本, aXbXc, abcabc, 255 x a, 255 x é}}{}; positions / lengths {{-1, 0, 1, 2, 3, len-1, len, len+1, 255, 256, 32767, 1.5, -0.5, 40000}}; patterns {{\"\", a, b, c, é, bc, zz, X, 本, ab, ca, the string itself}}; codes {{-1, 0, 10, 65, 233, 55295, 55296, 57343, 57344, 1114111, 1114112, 65.5}}; 40 VAL inputs; every function (LEN LEFT$ RIGHT$ MID$ INSTR ASC CHR$ STRING$ SPC STR$ VAL HEX$ OCT$), MID$ assignment with 6 replacement strings, concatenation and the six comparisons over all pairs - all tuples, through the public entry points and through the interpreter (string results stored to a variable); the store limit for 3 targets (scalar, array element, element of a DIMmed 2-D array) x 9 previous contents (unset, empty, 1..255 characters of 1, 2 and 3 bytes) x 14 new lengths 0..700 x 3 characters x 3 tails; LEN, ASC, INSTR, MID$, LEFT$, RIGHT$ and comparisons of four unstored concatenations of 256..765 characters at 6 positions",
                 if tier == Tier::Thorough { " plus all 363 strings of length <=5 over {a, b, é}" } else { " plus all 39 strings of length <=3 over {a, b, é}" }
             ),
             rule: "a case is one call (API) or one entered line (interpreter); distinct_nontrivial = distinct (function, expected result) pairs".into(),
